@@ -159,6 +159,7 @@ func (e *Env) fail(class, format string, args ...any) *Violation {
 	// minimised program, so only what the violation needs survives)
 	v.Facts["after_runtime_reset"] = e.Res.Probes["reset_since_restart"] > 0
 	v.Facts["after_restart"] = e.Res.Probes["restart"] > 0
+	v.Facts["meta_lost_higher_level_ahead"] = e.Res.Probes["meta_lost_with_higher_level_ahead"] > 0
 	v.Facts["after_stop_start"] = e.Res.Probes["stop_start"] > 0
 	v.Facts["chunked_sync"] = e.Prog.Cfg.MaxSyncWALBytes > 0
 	v.Facts["min_ckpt"] = e.Prog.Cfg.MinCheckpointPageN
@@ -265,6 +266,25 @@ type testingT interface {
 }
 
 func (e *Env) run() {
+	e.runOps()
+	// decisive fact for finding F7, computed while the replica still exists: the
+	// restore plan for the latest state starts with a snapshot that is newer than
+	// the TXID it advertises because it copied database-file pages of later commits
+	if v := e.Viol; v != nil && e.FS != nil && e.Led != nil {
+		if _, ok := v.Facts["snapshot_db_file_ahead"]; !ok {
+			switch v.Class {
+			case "ack-restore-mismatch", "replica-inconsistent", "latest-regressed", "restore-txid-mismatch":
+				saved := e.Viol
+				if c, cv := e.buildChain(); cv == nil && c != nil && c.N > 0 {
+					v.Facts["snapshot_db_file_ahead"] = e.planSnapshotAhead(c, time.Time{})
+				}
+				e.Viol = saved
+			}
+		}
+	}
+}
+
+func (e *Env) runOps() {
 	e.start = time.Now()
 	e.mainGID = goid()
 	defer func() {
